@@ -30,4 +30,18 @@ CHECKS = {
     "C12": _arena("allocate/grow/grow_zeroed/shrink/deallocate through allocator_api2::Allocator for &Bump<M>: results fit the new layout, prefix preserved, zeroed tail, disjoint from live blocks, error leaves old block; Arena.tla GrowOp/ShrinkOp/DeallocOp on several live blocks.", "6/C12"),
     "C18": _arena("Requested capacity honoured, chunk_capacity never overstates what can be served without the global allocator (checked on every allocation event), each new chunk at least double the previous unless limit/refusal/size forbid.", "6/C18"),
 }
+_COLL_NOTE = ("Trusted: TLC + Json/IOUtils; the reference semantics Coll.tla, which is itself validated against std::vec::Vec / "
+              "std::boxed::Box on every program (a disagreement of the std half is reported as a tool error, never as a violation); "
+              "the Tracked element's drop ledger in the harness. Bounded: vectors of length <= 4-6, all index/range arguments incl. usize::MAX.")
+def _coll(text, ref):
+    return dict(category="model_checking", text=text, design_ref=ref, note=_COLL_NOTE,
+                technique="TLA+ reference semantics + TLC trace validation of twin (bumpalo/std) executions")
+CHECKS.update({
+    "C13": _coll("Every program is executed on bumpalo::collections::Vec<Tracked> and on std::vec::Vec<Tracked>; TLC validates both traces against Coll!Sem (return values, contents with element identity, panic/no-panic, capacity >= length and >= promised, neighbours/canaries undisturbed): all operations x all index/range arguments (incl. usize::MAX, every range form) on lengths 0..3(4), all pairs over a reduced alphabet, seeded random programs over two vectors/boxes; dbg and rel.", "6/C13"),
+    "C15": _coll("Unique-id drop ledger per call; CollTrace checks NoDoubleDrop, DropsExactlyWhatTheCallLetsGo (Coll!Sem's drop set), conservation EveryElementAccountedForExactlyOnce (before + created = after + dropped + specified leaks, pairwise disjoint) on every call of every program, incl. partially consumed / leaked iterators and conversions; quiescence at program end.", "6/C15"),
+    "C16": _coll("Panic-point enumerator: for every callback-calling operation, every callback index (predicate, key fn, Clone, Drop, iterator step) as the panic point, with and without follow-up use; after unwinding CollTrace requires: no id dropped twice (now or later), no dropped/moved-out id reachable in any container, no duplicate ids, caller-held values not dropped; leaks allowed.", "6/C16"),
+    "C17": _coll("Box programs (new_in, drop, into_inner, leak, into_raw/from_raw round trip, from_iter_in, Vec->boxed slice, Debug forwarding) on bumpalo and std Box twins validated against Coll!Sem; BoxDropReleasesNoMemory checks that no global-allocator free and no accounting change happens at Box drop.", "6/C17"),
+})
+ENGINES.append(dict(name="tlc-coll", path="spec/Coll.tla spec/CollTrace.tla", serves_properties=["C13", "C15", "C16", "C17"],
+    kind_free_text="TLA+ reference semantics of Vec/Box over element identities; TLC trace validation of twin executions"))
 NOT_APPLICABLE = {}
